@@ -521,6 +521,14 @@ def body_spherical(case, ctx):
     ctx.close("projective_to_spherical(spherical_to_projective(s))",
               cp.projective_to_spherical(cp.spherical_to_projective(S.copy())), S, rtol=0,
               atol=1e-12)
+    # a point object that held integer-typed data (the poles (1, 0) and (0, 1)) and is then
+    # given spherical coordinates through the setter: it is where it was put
+    poles = np.zeros(shape + (2,), dtype=np.int64)
+    poles[..., 0] = 1
+    Pp = CP1Point(poles)
+    Pp.spherical_coords(S.copy())
+    ctx.close("spherical_coords(s) on a point that held integer-typed data", Pp.spherical_coords(),
+              S, rtol=0, atol=1e-12)
     # the module-level conversions in the column layout (documented option of both)
     if len(shape) >= 1:
         ctx.label("column-layout")
